@@ -31,6 +31,9 @@ type C01Dec struct {
 	Signed   bool    `json:"signed_bytes"`
 	Trailing []byte  `json:"trailing"`
 	Plain    bool    `json:"plain_reader"`
+	// Repeat > 0: the stream holds the document Repeat+1 times and ONE Decoder reads them one after
+	// the other into fresh destinations (state must not leak from one document to the next)
+	Repeat int `json:"repeat,omitempty"`
 }
 
 func c01DecodeTarget(c C01Dec) (td *gm.TD, vd *gm.VD, dropped int) {
@@ -58,6 +61,9 @@ func c01DecodeTarget(c C01Dec) (td *gm.TD, vd *gm.VD, dropped int) {
 
 func c01CheckDecode(c C01Dec) *pbt.Violation {
 	doc, _ := rn.Encode(c.Tree, c.Network, c.Name)
+	if c.Repeat > 0 {
+		return c01CheckDecodeSeq(c, doc)
+	}
 	stream := append(append([]byte{}, doc...), c.Trailing...)
 	td, vd, _ := c01DecodeTarget(c)
 	typ := td.Type()
@@ -105,6 +111,55 @@ func c01CheckDecode(c C01Dec) *pbt.Violation {
 	return nil
 }
 
+// c01CheckDecodeSeq: several copies of the document in one stream, read by one Decoder.
+func c01CheckDecodeSeq(c C01Dec, doc []byte) *pbt.Violation {
+	var stream []byte
+	for i := 0; i <= c.Repeat; i++ {
+		stream = append(stream, doc...)
+	}
+	stream = append(stream, c.Trailing...)
+	td, vd, _ := c01DecodeTarget(c)
+	typ := td.Type()
+	src := iox.NewSrc(stream)
+	var r io.Reader = iox.ByteSrc{Src: src}
+	if c.Plain {
+		r = iox.Plain{R: src}
+	}
+	d := nbt.NewDecoder(r)
+	d.NetworkFormat(c.Network)
+	wantName := string(c.Name)
+	if c.Network {
+		wantName = ""
+	}
+	for i := 0; i <= c.Repeat; i++ {
+		dst := reflect.New(typ)
+		var name string
+		var err error
+		if pv, stack := pbt.Try(func() { name, err = d.Decode(dst.Interface()) }); pv != nil {
+			return pbt.V(pbt.PanicKey("nbt.decode", stack), "decoding a well-formed document", "document #%d of %d on one Decoder: Decode into %s panicked: %v\n%s", i, c.Repeat+1, typ, pv, stack)
+		}
+		if err != nil {
+			return pbt.V("c01.decode.seq.error:"+c.Target, "decoding yields the values the format assigns (every document of a stream)",
+				"document #%d of %d read by one Decoder: %v (tree %s)", i, c.Repeat+1, err, c.Tree)
+		}
+		if src.Pos != (i+1)*len(doc) {
+			return pbt.V("c01.decode.overread", "consumes exactly the document's bytes",
+				"after document #%d of %d the decoder has taken %d bytes, the documents end at %d (target %s, tree %s)", i, c.Repeat+1, src.Pos, (i+1)*len(doc), typ, c.Tree)
+		}
+		if name != wantName {
+			return pbt.V("c01.decode.rootname", "root name", "document #%d: root name %q, want %q", i, name, wantName)
+		}
+		if df := gm.CheckDecoded(td, vd, dst.Elem(), "$"); df != "" {
+			return pbt.V("c01.decode.seq.value:"+c.Target, "decoding yields the values the format assigns (every document of a stream)",
+				"document #%d of %d read by one Decoder into %s: %s\n tree: %s", i, c.Repeat+1, typ, df, c.Tree)
+		}
+	}
+	if !bytes.Equal(src.Rest(), c.Trailing) {
+		return pbt.V("c01.decode.overread", "leaves what follows unread", "trailing bytes changed")
+	}
+	return nil
+}
+
 func rootKind(t *rn.Tag) string { return rn.TagNames[t.Type] }
 
 var c01Dec = pbt.Register(pbt.Prop[C01Dec]{
@@ -123,6 +178,9 @@ var c01Dec = pbt.Register(pbt.Prop[C01Dec]{
 			c.Trailing = rapid.SliceOfN(rapid.Byte(), 1, 16).Draw(t, "trailing")
 		}
 		c.Plain = rapid.Bool().Draw(t, "plain")
+		if rapid.IntRange(0, 3).Draw(t, "seq") == 2 {
+			c.Repeat = rapid.IntRange(1, 3).Draw(t, "repeat")
+		}
 		return c
 	},
 	Check: c01CheckDecode,
@@ -142,9 +200,12 @@ var c01Dec = pbt.Register(pbt.Prop[C01Dec]{
 		if len(c.Trailing) > 0 {
 			labels = append(labels, "trailing_bytes")
 		}
+		if c.Repeat > 0 {
+			labels = append(labels, "several_documents_one_decoder")
+		}
 		nt := s.ContainerInContainer || len(c.Trailing) > 0 || dropped > 0 || c.Tree.Type != rn.Compound
 		doc, _ := rn.Encode(c.Tree, c.Network, c.Name)
-		return nt, labels, append(doc, []byte(fmt.Sprintf("|%s|%v|%x", c.Target, c.Network, c.DropMask))...)
+		return nt, labels, append(doc, []byte(fmt.Sprintf("|%s|%v|%x|%d", c.Target, c.Network, c.DropMask, c.Repeat))...)
 	},
 	Quick: 320000, Thorough: 8000000,
 })
